@@ -171,3 +171,12 @@ impl BlockFilter {
         );
     }
 }
+
+#[cfg(feature = "verif-hooks")]
+impl BlockFilter {
+    /// verif hook: one synchronous run of `build_filter_data` (exactly what the service spawned by
+    /// `start` runs at start-up and on every new-block notification)
+    pub fn verif_build_once(&self) {
+        self.build_filter_data()
+    }
+}
